@@ -15,7 +15,7 @@ from bctmc.runner import guarded
 from bctmc.tally import Tally
 
 PROPERTY = 'C17'
-RULE = ('threshold_proportional: all symmetric matrices over {0,1,2,3} on 4 nodes and all matrices over {0,1,2,3} '
+RULE = ('threshold_proportional: all matrices over {0,1,2,3} on 1-2 nodes (p*count = 0.5 is reachable only there), all symmetric matrices over {0,1,2,3} on 3-4 nodes and all matrices over {0,1,2,3} '
         'on 3 nodes and binary on 4 nodes, zero and non-zero diagonal, p on the dyadic grid j/32 (j=0..32) plus '
         '0.1,0.3,0.7, copy in {True,False} (thorough: symmetric {0,1,2} on 5 nodes, {0,1,2} on 4 nodes with p=j/8); '
         'other utilities: all matrices over {-2,-1,0,1,2} on 3 nodes and symmetric on 4 nodes x thr in every value '
@@ -29,6 +29,9 @@ P_GRID = [j / 32.0 for j in range(33)] + [0.1, 0.3, 0.7]
 P_GRID8 = [j / 8.0 for j in range(9)]
 REAL = (-2, -1, 0, 1, 2)
 FAMILIES = {
+    'tp_dir1': ('tp', True, 1, (0, 1), P_GRID, 'q'), 'tp_dir2': ('tp', True, 2, (0, 1, 2, 3), P_GRID, 'q'),
+    'tp_sym2': ('tp', False, 2, (0, 1, 2, 3), P_GRID, 'q'), 'tp_sym3': ('tp', False, 3, (0, 1, 2, 3), P_GRID, 'q'),
+    'ut_dir2': ('ut', True, 2, REAL, None, 'q'), 'ut_dir1': ('ut', True, 1, REAL, None, 'q'),
     'tp_sym4': ('tp', False, 4, (0, 1, 2, 3), P_GRID, 'q'),
     'tp_dir3': ('tp', True, 3, (0, 1, 2, 3), P_GRID, 'q'),
     'tp_dirbin4': ('tp', True, 4, (0, 1), P_GRID, 'q'),
